@@ -276,16 +276,40 @@ func idCEMI(code uint8, id int) []byte {
 
 // busmonCEMI is a bus monitor indication carrying a telegram id (three times over, so that a
 // value patched together from two telegrams is recognised as neither).
-func busmonCEMI(id int) []byte {
+func busmonCEMI(id int, pad int) []byte {
 	h, l := byte(id>>8), byte(id)
-	return []byte{0x2b, 'B', 'M', h, l, h, l, h, l}
+	b := []byte{0x2b, 'B', 'M', h, l, h, l, h, l}
+	if pad > 0 {
+		// a long raw frame: its length is part of it, so that a cut copy is recognised as no telegram at all
+		b = append(b, byte(pad>>8), byte(pad))
+		for i := 0; i < pad; i++ {
+			b = append(b, byte(id+3*i))
+		}
+	}
+	return b
 }
 
 func busmonID(body []byte) int {
-	if len(body) != 8 || body[0] != 'B' || body[1] != 'M' || body[2] != body[4] || body[3] != body[5] || body[2] != body[6] || body[3] != body[7] {
+	if len(body) < 8 || body[0] != 'B' || body[1] != 'M' || body[2] != body[4] || body[3] != body[5] || body[2] != body[6] || body[3] != body[7] {
 		return -1
 	}
-	return int(body[2])<<8 | int(body[3])
+	id := int(body[2])<<8 | int(body[3])
+	if len(body) == 8 {
+		return id
+	}
+	if len(body) < 10 {
+		return -1
+	}
+	pad := int(body[8])<<8 | int(body[9])
+	if pad == 0 || len(body) != 10+pad {
+		return -1
+	}
+	for i := 0; i < pad; i++ {
+		if body[10+i] != byte(id+3*i) {
+			return -1
+		}
+	}
+	return id
 }
 
 func cemiID(c []byte) int {
